@@ -131,9 +131,13 @@ func init() {
 		lenv.SetAnswer(func(addr string, body *redis.RespValue) *redis.RespValue {
 			return &redis.RespValue{Type: redis.BulkString, Text: []byte(nodesText)}
 		})
+		hangs := 0
 		emit := func(text string) {
+			if hangs >= 3 {
+				return // three parses are still spinning: enough
+			}
 			fmt.Fprintln(cases, hex.EncodeToString([]byte(text)))
-			out := func() (s string) {
+			parse := func() (s string) {
 				defer func() {
 					if r := recover(); r != nil {
 						s = "PANIC"
@@ -160,7 +164,19 @@ func init() {
 				}
 				sort.Strings(ms)
 				return strings.TrimSpace("OK " + strings.Join(ms, " "))
-			}()
+			}
+			// a parse that does not come back (a node text cannot wedge the proxy) is given up after five seconds
+			outc := make(chan string, 1)
+			go func() { outc <- parse() }()
+			var out string
+			select {
+			case out = <-outc:
+			case <-time.After(5 * time.Second):
+				hangs++
+				hist["out:HANG"]++
+				fmt.Fprintln(impl, "HANG load:skipped")
+				return
+			}
 			// the same text through the real doSlotsRefresh (table update included)
 			nodesText = text
 			load := "load:ok"
